@@ -144,7 +144,10 @@ private:
     size_t i = bitPos / WLS;
     size_t j = bitPos % WLS;
 
-    size_t mask = ~(~((size_t)0) << bitsField) << j;
+    // The << operator is undefined for the number of bits of the word (see
+    // maxVal), so a full-width field needs its own mask.
+    size_t mask =
+        (bitsField >= WLS ? ~((size_t)0) : ~(~((size_t)0) << bitsField)) << j;
     data[i] = (data[i] & ~mask) | (value << j);
 
     if (j + bitsField > WLS) {
